@@ -307,6 +307,30 @@ def verify(ctx, H, cls, held, case, prev_nodes, prev_edges, edges_reordered):
     check_multi(ctx, "edges-held", ev, [held.estats[k] for k in list(ee)[:3]], edges, held=held.emulti)
     m2 = nv.multi(["degree", held.nstats["degree(order)"]]).asdict()
     ctx.check(m2 == {n: {"degree": ne["degree"][n], held.nstats["degree(order)"].name: ne["degree(order)"][n]} for n in nodes}, ("multi", "nodes", "by-name"), lambda: repr(m2)[:200])
+    # ---- restricted views: the bulk accessors list exactly the IDs of the view, in its order
+    eb, nb = edges[::2], nodes[1::2]
+    if eb:
+        rv = H.edges(eb)
+        ctx.check(list(rv) == eb, ("view", "restricted-edges", "ids"), lambda: "%r vs %r" % (list(rv), eb))
+        if cls == "DH":
+            one = {e: tuple(map(set, H.edges.dimembers(e))) for e in eb}
+            got_l = [tuple(map(set, x)) for x in rv.dimembers()]
+            got_d = {e: tuple(map(set, x)) for e, x in rv.dimembers(dtype=dict).items()}
+            ctx.check(got_l == [one[e] for e in eb] and got_d == one and list(got_d) == eb, ("view", "restricted-edges", "dimembers"), lambda: "%r / %r vs %r" % (got_l, got_d, one))
+        one = {e: set(H.edges.members(e)) for e in eb}
+        got_l = [set(x) for x in rv.members()]
+        got_d = {e: set(x) for e, x in rv.members(dtype=dict).items()}
+        ctx.check(got_l == [one[e] for e in eb] and got_d == one and list(got_d) == eb, ("view", "restricted-edges", "members"), lambda: "%r / %r vs %r" % (got_l, got_d, one))
+    if nb:
+        rn = H.nodes(nb)
+        ctx.check(list(rn) == nb, ("view", "restricted-nodes", "ids"), lambda: "%r vs %r" % (list(rn), nb))
+        if cls == "DH":
+            one = {n: tuple(map(set, H.nodes.dimemberships(n))) for n in nb}
+            got_d = {n: tuple(map(set, x)) for n, x in rn.dimemberships().items()}
+        else:
+            one = {n: set(H.nodes.memberships(n)) for n in nb}
+            got_d = {n: set(x) for n, x in rn.memberships().items()}
+        ctx.check(got_d == one and list(got_d) == nb, ("view", "restricted-nodes", "memberships"), lambda: "%r vs %r" % (got_d, one))
     # ---- filterby / filterby_attr
     val, hi, mode = flt["val"], flt["hi"], flt["mode"]
     v, mo = mode_arg(mode, val, hi)
